@@ -229,13 +229,14 @@ theorem C15_info (cfg : Cfg) (s : St K V) :
     step cfg s .info = (s, .info s.hit s.miss s.load
       (match cfg.algo with | .no => some 0 | .inf => none | _ => some cfg.maxsize) s.c.mem.length) := rfl
 
-/-- **clear()** empties the memory cache (of the caching decorators) and the bookkeeping and
-zeroes the counters; **clear(keepstats=True)** keeps the counters. -/
-theorem C15_clear (cfg : Cfg) (s : St K V) (keep : Bool) (ha : cfg.algo ≠ .no) :
+/-- **clear()** empties the memory cache and the bookkeeping and zeroes the counters;
+**clear(keepstats=True)** keeps the counters - for all twelve decorators (since the repair of F56 also
+for `no_cache`, whose memory is not empty after a `load()`). -/
+theorem C15_clear (cfg : Cfg) (s : St K V) (keep : Bool) :
     (step cfg s (.clear keep)).1.c.mem = [] ∧
     (step cfg s (.clear keep)).1.stats = (if keep then s.stats else (0, 0, 0)) ∧
     (step cfg s (.clear keep)).1.c.arch = s.c.arch := by
-  simp only [step, ha, if_false]
+  simp only [step]
   cases keep <;> simp [St.stats, St.clearBook, Cache.clearMem]
 
 /-! ## witnesses -/
